@@ -255,4 +255,110 @@ theorem resolvePortions_sum_one_of_remaining {env : VEnv} {ps : List PortionSpec
   obtain ⟨sp, h1, h2⟩ := resolvePortions_inv h
   exact newAllotment_sum_one_of_remaining h2 ((specs_remaining ps sp h1).mpr hrem)
 
+/-! ### accepted scripts: `checkPortions` guarantees a total of exactly one -/
+
+def constOf : PortionSpec → Option Rat' | .const r => some r | _ => none
+def isBadSpec : PortionSpec → Bool | .badConst => true | _ => false
+def isVarSpec : PortionSpec → Bool | .var _ => true | _ => false
+def isRemSpec : PortionSpec → Bool | .remaining => true | _ => false
+def varSpecOk (Γ : TEnv) : PortionSpec → Bool
+  | .var n => tyOf Γ (.var n) = some .portion
+  | _ => true
+
+theorem checkPortions_eq (Γ : TEnv) (ps : List PortionSpec) :
+    checkPortions Γ ps =
+      (!ps.any isBadSpec && ps.all (varSpecOk Γ) && decide ((ps.filter isRemSpec).length ≤ 1) &&
+        decide ((ratSum (ps.filterMap constOf)).1 ≤ (ratSum (ps.filterMap constOf)).2) &&
+        (if (ratSum (ps.filterMap constOf)).1 < (ratSum (ps.filterMap constOf)).2
+          then decide ((ps.filter isRemSpec).length = 1)
+          else !ps.any isVarSpec && decide ((ps.filter isRemSpec).length = 0))) := rfl
+
+theorem specs_all_const {env : VEnv} : (ps : List PortionSpec) → (sp : List (Option Rat')) →
+    ps.mapM (specOf env) = .ok sp → (∀ p ∈ ps, ∃ r, p = .const r) →
+    none ∉ sp ∧ sp.filterMap id = ps.filterMap constOf
+  | [], sp, h, _ => by simp [pure, Except.pure] at h; subst h; simp
+  | p :: ps, sp, h, hall => by
+    obtain ⟨y, ys, h1, h2, rfl⟩ := mapM_cons_ok h
+    obtain ⟨r, rfl⟩ := hall p List.mem_cons_self
+    obtain ⟨ih1, ih2⟩ := specs_all_const ps ys h2 (fun q hq => hall q (List.mem_cons_of_mem _ hq))
+    simp only [specOf, Except.ok.injEq] at h1
+    subst h1
+    refine ⟨?_, ?_⟩
+    · intro hm
+      rcases List.mem_cons.mp hm with hm | hm
+      · cases hm
+      · exact ih1 hm
+    · rw [filterMap_id_some, ih2]; rfl
+
+/-- for every portion list the compiler accepts (`checkPortions`), what `resolvePortions` yields adds up to
+exactly one: either a `remaining` entry fills the gap, or the list is all constants adding up to one -/
+theorem resolvePortions_sum_one_of_checked {Γ : TEnv} {env : VEnv} {ps : List PortionSpec} {rs : List Rat'}
+    (hc : checkPortions Γ ps = true) (h : resolvePortions env ps = .ok rs) : (ratSum rs).1 = (ratSum rs).2 := by
+  by_cases hrem : PortionSpec.remaining ∈ ps
+  · exact resolvePortions_sum_one_of_remaining h hrem
+  · obtain ⟨sp, h1, h2⟩ := resolvePortions_inv h
+    rw [checkPortions_eq] at hc
+    simp only [Bool.and_eq_true, Bool.not_eq_true', decide_eq_true_eq] at hc
+    obtain ⟨⟨⟨⟨hbad, _⟩, _⟩, hle⟩, hif⟩ := hc
+    have hn0 : (ps.filter isRemSpec).length = 0 := by
+      rw [List.length_eq_zero_iff, List.filter_eq_nil_iff]
+      intro p hp
+      cases p with
+      | remaining => exact absurd hp hrem
+      | _ => simp [isRemSpec]
+    rw [hn0] at hif
+    split at hif
+    · simp at hif
+    · rename_i hlt
+      simp only [Bool.and_eq_true, Bool.not_eq_true', decide_eq_true_eq, and_true] at hif
+      have hall : ∀ p ∈ ps, ∃ r, p = .const r := by
+        intro p hp
+        cases p with
+        | const r => exact ⟨r, rfl⟩
+        | badConst =>
+          have := List.any_eq_false.mp hbad _ hp
+          simp [isBadSpec] at this
+        | var n =>
+          have := List.any_eq_false.mp hif _ hp
+          simp [isVarSpec] at this
+        | remaining => exact absurd hp hrem
+      obtain ⟨a1, a2⟩ := specs_all_const ps sp h1 hall
+      rw [newAllotment_of_no_remaining h2 a1, a2]
+      omega
+
+/-- denominators: positive in the text and in the variables ⇒ positive in what `resolvePortions` yields -/
+theorem specs_posDen {env : VEnv} (hv : ∀ n r, lookupVar env n = some (.portion r) → 0 < r.den) :
+    (ps : List PortionSpec) → (sp : List (Option Rat')) → ps.mapM (specOf env) = .ok sp →
+    (∀ r, PortionSpec.const r ∈ ps → 0 < r.den) → PosDen (sp.filterMap id)
+  | [], sp, h, _ => by simp [pure, Except.pure] at h; subst h; intro r hr; simp at hr
+  | p :: ps, sp, h, hc => by
+    obtain ⟨y, ys, h1, h2, rfl⟩ := mapM_cons_ok h
+    have ih := specs_posDen hv ps ys h2 (fun r hr => hc r (List.mem_cons_of_mem _ hr))
+    cases y with
+    | none => rw [filterMap_id_none]; exact ih
+    | some q =>
+      rw [filterMap_id_some]
+      intro r hr
+      rcases List.mem_cons.mp hr with rfl | hr
+      · cases p with
+        | const r' =>
+          simp only [specOf, Except.ok.injEq, Option.some.injEq] at h1
+          subst h1; exact hc _ List.mem_cons_self
+        | badConst => simp [specOf] at h1
+        | var n =>
+          simp only [specOf] at h1
+          split at h1
+          · rename_i r' hl
+            simp only [Except.ok.injEq, Option.some.injEq] at h1
+            subst h1; exact hv n _ hl
+          · cases h1
+        | remaining => simp [specOf] at h1
+      · exact ih r hr
+
+theorem resolvePortions_posDen {env : VEnv} {ps : List PortionSpec} {rs : List Rat'}
+    (h : resolvePortions env ps = .ok rs) (hv : ∀ n r, lookupVar env n = some (.portion r) → 0 < r.den)
+    (hc : ∀ r, PortionSpec.const r ∈ ps → 0 < r.den) : PosDen rs := by
+  obtain ⟨sp, h1, h2⟩ := resolvePortions_inv h
+  exact newAllotment_posDen h2 (specs_posDen hv ps sp h1 hc)
+
 end Num
